@@ -2,6 +2,8 @@ package main
 
 import (
 	"bytes"
+	"encoding/hex"
+	"encoding/json"
 	"fmt"
 	"os"
 	"path/filepath"
@@ -124,7 +126,9 @@ func reencodeStep(r *report, w *world, in *c07Input, f *fit.File, gen int, useMo
 			} else if hasShortCsd(before) || hasShortCsd(impl.Files[0]) {
 				// a compressed_speed_distance array shorter than 3 bytes: mask what its padded re-encoding changes
 				// in those records only (position-wise on both generations)
+				// (records with a full 3-byte array in the same file still differ by the accumulator finding)
 				a, b := maskShortCsdPair(before, impl.Files[0])
+				a, b = maskAccumTextX(a, true), maskAccumTextX(b, true)
 				if r3, err := w.d.ask(fmt.Sprintf("c07 %s %s", a, b)); err == nil && kv(r3)["eq"] == "1" {
 					tag = "csd_array_length"
 				} else {
@@ -291,6 +295,33 @@ func runC07(args []string) int {
 		}
 	}
 	r.Extra["testdata_seconds"] = time.Since(t0).Seconds()
+
+	// --- the witnesses of the recorded compressed_speed_distance findings (corpus/known/C07-*.json): judged like any
+	// other input, so each must still be explained by its finding and by nothing else
+	for _, name := range []string{"C07-csd-array-length.json", "C07-csd-mixed-lengths.json"} {
+		raw, err := os.ReadFile(filepath.Join(verifRoot, "corpus", "known", name))
+		if err != nil {
+			continue
+		}
+		var wit struct {
+			Case struct {
+				InputHex  string `json:"input_hex"`
+				BigEndian bool   `json:"big_endian"`
+			} `json:"case"`
+		}
+		if json.Unmarshal(raw, &wit) != nil || wit.Case.InputHex == "" {
+			continue
+		}
+		data, err := hex.DecodeString(wit.Case.InputHex)
+		if err != nil {
+			continue
+		}
+		r.hist("known_finding_witnesses")
+		if err := c07Case(r, w, &c07Input{Name: "corpus/known/" + name, Data: data, BE: wit.Case.BigEndian}, true, 90); err != nil {
+			fmt.Println("driver:", err)
+			return 2
+		}
+	}
 
 	// --- generated and mutated streams
 	n := 6000
